@@ -85,7 +85,7 @@ func randScript(g *vlib.Rng, n, depth int) []byte {
 			if len(k) == 33 {
 				k[0] = byte(2 + g.Intn(2))
 			}
-			sg := g.Bytes(g.Pick(0, 9, 64, 65, 71))
+			sg := g.Bytes(g.Pick(0, 1, 2, 9, 64, 65, 71))
 			s = append(s, pushData(sg)...)
 			if g.Intn(3) == 0 {
 				s = append(s, pushNum(int64(g.Intn(3)))...)
@@ -98,7 +98,7 @@ func randScript(g *vlib.Rng, n, depth int) []byte {
 			ns := g.Intn(nk + 1)
 			s = append(s, 0)
 			for j := 0; j < ns; j++ {
-				s = append(s, pushData(g.Bytes(g.Pick(0, 9, 71)))...)
+				s = append(s, pushData(g.Bytes(g.Pick(0, 1, 9, 71)))...)
 			}
 			s = append(s, pushNum(int64(ns))...)
 			for j := 0; j < nk; j++ {
@@ -231,7 +231,7 @@ func helperStreams() {
 	}
 	// delSig against the model; the spec's FindAndDelete is compared where the two are specified to coincide
 	for i := 0; i < r.N(400, 20000); i++ {
-		sg := g.Bytes(g.Pick(0, 1, 2, 9, 71, 72, 75, 76, 80))
+		sg := g.Bytes(g.Pick(0, 1, 2, 9, 71, 72, 75, 76, 80, 0x4b, 0x4c, 0xff, 0x100, 0x1ff, 0x200, 519, 520))
 		var w []byte
 		for j := 0; j < 1+g.Intn(6); j++ {
 			switch g.Intn(4) {
@@ -248,28 +248,10 @@ func helperStreams() {
 		if g.Intn(6) == 0 {
 			w = append(w, 0x4c)
 		}
-		wantDel := safeStr("delSig", func() (s string) {
-			quiet(func() {
-				res, cnt := script.VerifDelSig(w, sg)
-				s = fmt.Sprintf("%s %d", vlib.Hex(res), cnt)
-			})
-			return
-		})
-		cmp("delsig", fmt.Sprintf("delsig %s %s", vlib.Hex(w), vlib.Hex(sg)), wantDel, 0, 1)
-		rep := strings.Fields(o.MustAsk(fmt.Sprintf("delsig %s %s", vlib.Hex(w), vlib.Hex(sg))))
-		if len(rep) == 4 && (rep[0] != rep[2] || rep[1] != rep[3]) {
-			// theorem delSig_eq_findAndDelete: the two coincide on every script WITHOUT a decode error; on a script with a
-			// decode error gocoin's byte-wise delSig and Core's opcode-wise FindAndDelete may legitimately differ (such a
-			// script fails anyway). The signature-length difference was removed by fix acaf95d6.
-			if scriptDecodes(w) {
-				r.TieFail("delsig-vs-findanddelete", fmt.Sprintf("script %x decodes, sig %x: model delSig %s/%s, Core FindAndDelete %s/%s", w, sg, rep[0], rep[1], rep[2], rep[3]), map[string]string{"request": fmt.Sprintf("delsig %x %x", w, sg)})
-			} else {
-				r.Hit("delsig:differs-from-FindAndDelete(decode-error)")
-			}
-		} else if len(rep) == 4 {
-			r.Hit("delsig:equals-FindAndDelete")
-		}
+		delsigOne(w, sg, "")
 	}
+	// … and at every edge of the push-opcode ranges (sizes.go), with the result the rule demands
+	delsigBoundaries(vlib.NewRng(0xC01D5))
 	// signature / key encodings
 	k := newKey(g)
 	for i := 0; i < r.N(500, 20000); i++ {
@@ -1206,6 +1188,8 @@ func generated() {
 	budgetStream(r.Rng.Fork(), r.N(160, 6000))
 	// ---- CLTV / CSV against version / lock time / sequence words of the whole 32-bit range (ctxwords.go)
 	lockStream(r.Rng.Fork(), r.N(1200, 40000))
+	// ---- signatures that also sit inside the script code they sign, at the push-encoding size edges (sizes.go)
+	fadStream(r.Rng.Fork(), r.N(300, 10000))
 	_ = bytes.Equal
 }
 
